@@ -369,7 +369,8 @@ def load(f, **options):
             if 'triggered' in message.attrib:
                 new_frame.cycle_time = int(message.get('interval'))
 
-            if 'length' in message.attrib:
+            if 'length' in message.attrib and message.get('length') != "auto":
+                # "auto" (the schema's default) = the minimum length that holds the signals, as if the attribute were absent
                 dlc = int(message.get('length'))
                 new_frame.size = dlc
 
